@@ -45,7 +45,7 @@ def main():
         tail = f.read()
     head = """# Seeded changes (independent sub-agents)
 
-Four rounds of 33 (3 per claimed property). Each sub-agent was given only the text of one property (from round 2 on: plus the
+Five rounds of 33 (3 per claimed property). Each sub-agent was given only the text of one property (from round 2 on: plus the
 one-line titles of the earlier changes for that property, to avoid repeats) and its own scratch worktree of /repo under /tmp; nothing
 from /verif. Every change below was confirmed by `tools/triage_seeded.py` in a scratch worktree (never in /repo): the pinned 116 tests
 pass with the change, `demo.py` fails with it and passes without it; then the property's quick check was run with `VERIF_REPO` pointing
